@@ -526,6 +526,8 @@ pub fn format_blots(source: &str, max_columns: Option<usize>) -> Result<JsValue,
 
     // Join all formatted statements with appropriate spacing (preserving up to 1 empty line)
     let result = join_statements_with_spacing(&formatted_statements);
+    #[cfg(feature = "verif-hooks")]
+    blots_core::verif_hooks::on_driver_result("format_blots", &result);
 
     // Return the formatted string
     let serializer = serde_wasm_bindgen::Serializer::json_compatible();
